@@ -35,6 +35,7 @@ PARAMS = {
     'advectionNd': dict(nvars=(32,), bc='periodic'), 'GenericNDimFinDiff': dict(nvars=(32,), bc='periodic'), 'Quench': dict(nvars=31), 'QuenchIMEX': dict(nvars=31),
     'testequation0d': dict(lambdas=np.array([-1.0 + 0.5j, -0.3 - 2j, -20.0]), u0=1.0), 'test_equation_IMEX': dict(lambdas_implicit=np.array([-1.0 + 0.5j, -3.0]), lambdas_explicit=np.array([0.2j, -0.1]), u0=1.0),
     'Heat1DChebychev': dict(nvars=16), 'Heat1DUltraspherical': dict(nvars=16), 'Heat2DUltraspherical': dict(nx=8, ny=8), 'Burgers1D': dict(N=16), 'Burgers2D': dict(nx=8, nz=8),
+    'swfw_scalar': dict(lambda_s=np.array([0.5j, -0.2 + 1j]), lambda_f=np.array([10j, -3.0 + 20j]), u0=1.0),
     'acoustic_1d_imex': dict(nvars=(2, 32)), 'advectiondiffusion1d_imex': dict(nvars=32), 'advectiondiffusion1d_implicit': dict(nvars=32),
 }
 # classes outside the generic harness, with the reason (reported as uncovered)
@@ -87,6 +88,16 @@ def rel(a, b):
     return float(np.max(np.abs(a - b)) / max(1.0, float(np.max(np.abs(b))))) if a.size else 0.0
 
 
+def ref_state(P, t):
+    """an admissible state near time t: the class' own exact / reference solution where it offers one for that time, otherwise a smooth
+    modulation of the initial state (several classes provide u_exact only for t = 0)"""
+    try:
+        return np.asarray(P.u_exact(t))
+    except Exception:
+        u0 = np.asarray(P.u_exact(0.0))
+        return u0 * (1.0 + 0.05 * np.cos(3.0 * t + 0.3 * np.arange(u0.size).reshape(u0.shape))) + 0.01 * np.sin(t + np.arange(u0.size).reshape(u0.shape))
+
+
 def check_class(name, cls, tier, rng):
     """returns (list of failed clause strings, number of cases, uncovered reason or None)"""
     fails, cases = [], 0
@@ -127,7 +138,7 @@ def check_class(name, cls, tier, rng):
             for factor in (0.0, 1e-3, 1e-1):
                 cases += 1
                 us = P.dtype_u(P.u_exact(0.0))
-                us[...] = 0.8 * np.asarray(P.u_exact(0.0)) + 0.2 * np.asarray(P.u_exact(0.05))
+                us[...] = 0.8 * np.asarray(P.u_exact(0.0)) + 0.2 * ref_state(P, 0.05)
                 try:
                     fs = P.eval_f(us, 0.0)
                     rhs = P.dtype_u(us)
@@ -153,13 +164,14 @@ def check_class(name, cls, tier, rng):
         for t in (0.0, 0.3):
             cases += 1
             # an admissible, smooth state: blend of two exact states (random noise would excite unresolved modes of spectral classes)
-            us = P.dtype_u(P.u_exact(t))
-            us[...] = (0.7 + 0.1 * rng.rand()) * np.asarray(P.u_exact(t)) + 0.3 * np.asarray(P.u_exact(t + 0.05))
+            us = P.dtype_u(P.u_exact(0.0))
+            us[...] = (0.7 + 0.1 * rng.rand()) * ref_state(P, t) + 0.3 * ref_state(P, t + 0.05)
             try:
                 fs = P.eval_f(us, t)
                 rhs = P.dtype_u(us)
                 rhs[...] = us - factor * np.asarray(impl_part(fs))
-                guess = P.dtype_u(P.u_exact(t))
+                guess = P.dtype_u(P.u_exact(0.0))
+                guess[...] = ref_state(P, t)
                 rhs_c, guess_c = np.array(rhs), np.array(guess)
                 wc = getattr(P, 'work_counters', {}).get('newton')
                 n_before = wc.niter if wc is not None else 0
